@@ -1,7 +1,34 @@
 (* C08 -- XMI save then load reproduces the model.   Statements only.
 
-   What is proved here: the SYNTACTIC cores of the round trip, at full strength
-   (every list of values, every string over every code point):
+   1. WHOLE DOCUMENTS (Model/XmiDoc.v, Proofs/XmiDocProofs.v): the theorem of the property,
+          decode_doc mm (encode_doc mm o F) = Some (map forget F)
+      for every metamodel mm of one package with distinct feature ids per class (wf_mm), both save
+      options (SERIALIZE_DEFAULT_VALUES, OPTION_USE_XMI_TYPE) and EVERY forest F that is a state
+      pyecore can hold (wf_forest: concrete classes of mm, one slot per feature of the class, single-valued
+      features hold at most one value, targets exist in the resource and conform, children conform to the
+      declared type, unique references hold no target twice, a feature outside `_isset` reads as unset):
+      any number of roots (xmi:XMI wrapper iff not exactly one), any depth and width, subclass instances
+      (xsi:type / xmi:type), single / many attributes with any strings (None, '', white space), single /
+      many cross references in order (duplicates kept in non-unique ones), single / many containments.
+      `forget` drops `_isset`, which load does not reproduce and the property does not observe: classes,
+      attribute values, reference targets in order and nesting are equal.  encode_doc mirrors
+      XMIResource.save/_go_across, decode_doc mirrors load in its two phases (tree, then fragments resolved
+      against the built tree: extract_rootnum_and_frag, split('/'), split('.'), int(), _navigate_from).
+      The proof uses many_roundtrip, single_roundtrip, refs_roundtrip, ref_single_roundtrip and
+      int_of_str_of_Z (C17) as building blocks; resolve (fragment o) = o is proved on trees
+      (C08_fragment_resolves; C11's theorem of the same name is stated on the kernel state).
+      Modelled fragment and abstractions (names are numbers, the infoset after namespace processing, no
+      order between different features of one element): header of Model/XmiDoc.v.  NOT covered by this
+      theorem: several packages / prefix maps, uuid mode and id attributes as fragments (the choice of
+      _build_path_from is C08_reference_fragment_fit), proxies to other resources (C14), derived /
+      transient features, the opposite handshakes of load (per end: C08_reference_order_partial; the
+      document lists both ends of a symmetric state), from_string . to_string = id on the data types
+      (C17), lxml (A-lxml).  Tie: harness/xmidoc.py -- the infoset of the bytes the real save wrote =
+      run_xmidoc_enc, the observation of the real load of those bytes = run_xmidoc_dec, on generated
+      metamodels / models (with opposites), and every generated state satisfies wf_forest.
+
+   2. the SYNTACTIC cores (Model/XmiAttr.v, RefLoad.v), at full strength (every list of values, every
+      string over every code point) -- the `_partial` names are kept from the time they were all there was:
      * many-valued attributes: the attribute-vs-elements decision of
        _go_across (space-joined XML attribute unless some value is None, '' or
        contains a character with str.isspace(); then one element per value,
@@ -13,16 +40,9 @@
        the choice id-value-or-URI-fragment of _build_path_from;
      * one end of a many-valued bidirectional reference during load: no
        element twice, and the order of the end's own list.
-   Proofs: Proofs/XmiAttrProofs.v, Proofs/RefLoadProofs.v.
-
-   What is NOT proved (hence `_partial`): the semantic round trip
-   dump (load (save r)) = dump r  over whole models (DESIGN C08 (b)): object
-   creation, xsi:type, containment nesting, resolution of fragments (C11),
-   uuid assignment, and from_string . to_string = id on the data types (C17).
-   lxml (serialisation and parsing of the infoset) is assumed (A-lxml).
-   Those parts rest on the correspondence and the oracle of harness/props/c08.py. *)
+   Proofs: Proofs/XmiAttrProofs.v, Proofs/RefLoadProofs.v. *)
 From Coq Require Import ZArith List Bool.
-From PyecoreV Require Import Lib.PyBase Lib.PyList Model.OSet Model.XmiAttr Model.RefLoad Proofs.OSetProofs Proofs.XmiAttrProofs Proofs.RefLoadProofs.
+From PyecoreV Require Import Lib.PyBase Lib.PyList Model.OSet Model.XmiAttr Model.RefLoad Model.XmiDoc Proofs.OSetProofs Proofs.XmiAttrProofs Proofs.RefLoadProofs Proofs.XmiDocProofs.
 Import ListNotations.
 Open Scope Z_scope.
 
@@ -110,3 +130,95 @@ Proof. vm_compute. split; reflexivity. Qed.
 Example C08_append_only_loses_order :
   items (load_end_append_only [0; 1] [1; 0] []) = [0; 1] /\ items (load_end [0; 1] [1; 0] []) = [1; 0].
 Proof. exact append_only_loses_order. Qed.
+
+(* ================================================================ whole documents *)
+
+(* save then load: every state of the modelled fragment comes back -- classes, attribute values,
+   reference targets in order, nesting; no bound on depth, width or number of roots *)
+Theorem C08_document_round_trip :
+  forall (mm : mmodel) (o : opts) (F : list (tree (list path))),
+  wf_mm mm = true -> wf_forest mm F = true ->
+  decode_doc mm (encode_doc mm o F) = Some (map forget F).
+Proof. exact document_round_trip. Qed.
+Print Assumptions C08_document_round_trip.
+
+(* read literally: an observation G (no `_isset`) is exactly what the document of the state in which
+   every feature was assigned loads as *)
+Theorem C08_document_round_trip_literal :
+  forall (mm : mmodel) (o : opts) (G : list (tree (list path))),
+  wf_mm mm = true -> map forget G = G -> wf_forest mm (map (set_all (all_ids mm)) G) = true ->
+  decode_doc mm (encode_doc mm o (map (set_all (all_ids mm)) G)) = Some G.
+Proof. exact document_round_trip_literal. Qed.
+Print Assumptions C08_document_round_trip_literal.
+
+(* the two phases of load, separately: (1) the element of an object is read back as the object with its
+   attribute values, its children, and the reference texts kept aside; (2) the texts resolve against the
+   tree built in phase 1 *)
+Theorem C08_document_phase1 :
+  forall (mm : mmodel) (o : opts) (S : list sk), wf_mm mm = true ->
+  forall t, wf_tree mm S t = true ->
+  forall tag xty, dec_obj mm (t_cls t) (enc_tree mm o S tag xty t) = Some (pre mm o S t).
+Proof. exact phase1. Qed.
+Print Assumptions C08_document_phase1.
+
+Theorem C08_document_phase2 :
+  forall (mm : mmodel) (o : opts) (S : list sk), wf_mm mm = true ->
+  forall t, wf_tree mm S t = true -> link_tree mm S (pre mm o S t) = Some (forget t).
+Proof. exact phase2. Qed.
+Print Assumptions C08_document_phase2.
+
+(* Resource.resolve (eURIFragment o) = o on trees, at the level of the TEXT of the fragment; the text can sit
+   in a space-joined list and never reads as an external reference *)
+Theorem C08_fragment_resolves :
+  forall (mm : mmodel) (S : list sk) (p : path) (s : str),
+  wf_mm mm = true -> render_path mm S p = Some s ->
+  local s /\ has_hash s = false /\
+  exists n ps c, nth_error S (fst p) = Some n /\ abs_steps mm n (snd p) = Some (ps, c)
+                 /\ resolve_frag mm S s = Some (p, c).
+Proof. exact resolve_render. Qed.
+Print Assumptions C08_fragment_resolves.
+
+(* the parser of fragments inverts the writer: '/' | '/<n>' then '/@name.<i>' | '/@name' steps *)
+Theorem C08_fragment_text :
+  forall (nroots r : nat) (ps : list pstep),
+  Forall (fun p => 0 <= fst p) ps -> (nroots = 1%nat -> r = O) ->
+  parse_frag (root_text nroots r ++ psteps_text ps) = Some (r, ps).
+Proof. exact parse_frag_text. Qed.
+Print Assumptions C08_fragment_text.
+
+(* non-vacuity: two roots (xmi:XMI), a many attribute holding 'a b' (element form), a subclass instance
+   under a containment declared with the superclass (xsi:type), two cross references in order, a
+   reference to the second root, an empty string; every premise holds and the round trip is computed *)
+Example C08_document_witness :
+  wf_mm ex_mm = true /\ wf_forest ex_mm ex_forest = true /\
+  encode_doc ex_mm (mkOpts false false) ex_forest =
+    Elem TXmi None false []
+      [Elem (TRoot 0) None false
+         [(2, [47; 48; 47; 64; 1114115; 46; 49; 32; 47; 48; 47; 64; 1114115; 46; 48])]     (* '/0/@parts.1 /0/@parts.0' *)
+         [Elem (TFeat 0) None false [] [] (Some [97; 32; 98]);
+          Elem (TFeat 0) None false [] [] (Some [99]);
+          Elem (TFeat 3) None false [] [] None;
+          Elem (TFeat 3) (Some (false, 2)) false [(4, []); (5, [47; 49])] [] None] None;
+       Elem (TRoot 0) None false [(1, [120])] [] None] None /\
+  decode_doc ex_mm (encode_doc ex_mm (mkOpts false false) ex_forest) = Some (map forget ex_forest) /\
+  decode_doc ex_mm (encode_doc ex_mm (mkOpts true true) ex_forest) = Some (map forget ex_forest).
+Proof. vm_compute. repeat split; reflexivity. Qed.
+
+(* the premise about `_isset` is needed: a value that differs from the default in a feature that is not in
+   `_isset` (no state of pyecore: assigning puts the feature there) is not written, hence not read back *)
+Example C08_document_unset_feature_is_not_written :
+  let F := [Node 0 [] [(0, []); (1, [Some [120]])] [(2, [])] []] in
+  wf_forest ex_mm F = false /\
+  decode_doc ex_mm (encode_doc ex_mm (mkOpts false false) F)
+  = Some [Node 0 [] [(0, []); (1, [Some [100]])] [(2, [])] []].
+Proof. vm_compute. split; reflexivity. Qed.
+
+(* ... and so is "a unique reference holds no target twice": the collection is a set *)
+Example C08_document_unique_reference_is_a_set :
+  let F := [Node 0 [2; 3] [(0, []); (1, [Some [100]])] [(2, [(0%nat, [(3, 0%nat)]); (0%nat, [(3, 0%nat)])])]
+                 [(3, Node 1 [] [(4, [None])] [(5, [])] [])]] in
+  wf_forest ex_mm F = false /\
+  decode_doc ex_mm (encode_doc ex_mm (mkOpts false false) F)
+  = Some [Node 0 [] [(0, []); (1, [Some [100]])] [(2, [(0%nat, [(3, 0%nat)])])]
+               [(3, Node 1 [] [(4, [None])] [(5, [])] [])]].
+Proof. vm_compute. split; reflexivity. Qed.
